@@ -163,8 +163,8 @@ def halfCoord (E : Env α) (b0 b1 : UInt8) : α := halfToFloat E (b0.toNat + 256
 
 /-- `alpha / 255` (load.go keeps the stored value; the inverse sigmoid is commented out) -/
 def alphaDec (b : UInt8) : α := byteF b / natF 255
-/-- `(b/255 - 0.5) / 0.15` -/
-def colorDec (b : UInt8) : α := (byteF b / natF 255 - lit 1 2) / lit 15 100
+/-- `(b/255 - 0.5) / 0.15` (the literal `0.15` in lowest terms, as the source translator writes it) -/
+def colorDec (b : UInt8) : α := (byteF b / natF 255 - lit 1 2) / lit 3 20
 /-- `b/16 - 10` -/
 def scaleDec (b : UInt8) : α := byteF b / natF 16 - natF 10
 /-- `b · (1/127.5) - 1` -/
